@@ -405,7 +405,13 @@ func ruleR17f(c *Ctx) {
 	for _, b := range allBlocksOfParts {
 		for _, ins := range b.Instrs {
 			cp, ok := ins.(*ssa.Alloc)
-			if !ok || queryOf[cp] || !types.Identical(cp.Type().(*types.Pointer).Elem(), qType) {
+			if !ok || !types.Identical(cp.Type().(*types.Pointer).Elem(), qType) {
+				continue
+			}
+			// a helper that takes the query BY VALUE and moves the offset of its own copy (`func nextOffsetQuery(query Q, …) *Q
+			// { …; query.Offset = …; return &query }`): the parameter cell is the cursor
+			byValueCopy := queryOf[cp] && cp.Parent() != fn
+			if queryOf[cp] && !byValueCopy {
 				continue
 			}
 			var offStore *ssa.Store
@@ -428,6 +434,9 @@ func ruleR17f(c *Ctx) {
 						}
 					}
 				}
+			}
+			if byValueCopy {
+				copied = offStore != nil
 			}
 			if !copied {
 				continue
